@@ -41,6 +41,13 @@ CHECKS = {
  'C03': ('exploration', 'runtime monitor: reference-model oracle (groups as lists, exact rational arithmetic) over generated aggregate queries x numeric tables, observed through the probe writer; JS leg via node with the known key-order finding classified by mechanism',
          'Tens of thousands of generated aggregate queries (all nine aggregates in three spellings, 0-2 group keys, WHERE, TOP) are executed and every cell compared with exactly computed values; held on the executions observed.',
          'Trusted: rv/model/refsem.py aggregate(); tolerance 1e-9 relative for floating-point aggregates.', 'DESIGN.md#c03'),
+
+ 'C04': ('exploration', 'runtime monitor: reference-model oracle (join expansion by nested loops) over generated table pairs x join spellings x downstream query shapes; probe registry trace (join table read once, completely, before the first output); JS leg via node',
+         'Tens of thousands of generated (A, B, join query) cases with duplicate keys on both sides, ragged and empty tables and all five join spellings are executed and compared exactly with the expanded-pairs semantics; held on the executions observed.',
+         'Trusted: rv/model/refsem.py expand().', 'DESIGN.md#c04'),
+ 'C05': ('exploration', 'runtime monitor: reference-model oracle + per-row diff monitor (set of changed (row, field) pairs) over generated UPDATE queries incl. swaps / cycles, NU, joins, ragged tables; JS leg via node',
+         'Generated UPDATE queries are executed and both the emitted table and the exact set of changed cells are compared with the model; assignments beyond a short record must fail naming the record and the field; held on the executions observed.',
+         'Trusted: rv/model/refsem.py _run_update.', 'DESIGN.md#c05'),
 }
 
 NOT_YET = 'check not registered yet (machinery under construction; see DESIGN.md section 3a build order)'
